@@ -117,7 +117,8 @@ func (eng *Engine) verifyFunc(fn *ssa.Function, con *Contract) (vc *VC) {
 			}
 			vc.assume("true", t)
 		}
-		if len(con.Requires) > 0 {
+		// the residual case of an exhaustive split is infeasible by construction: nothing to cover there
+		if len(con.Requires) > 0 && !strings.HasSuffix(con.CaseTag, "=other]") {
 			vc.addObl(&Obl{Name: vc.oblName("vacuity", "requires-satisfiable"), Kind: "vacuity", PC: "true", Goal: "true", ExpectSat: true,
 				Pos: eng.fset.Position(fn.Pos()), Clause: "the preconditions (with well-formedness facts) are satisfiable"})
 		}
